@@ -40,6 +40,12 @@ import glob
 for _f in sorted(glob.glob(str(VERIF / "harness" / "manifest_entries" / "*.json"))):
     CHECKS.update(json.load(open(_f)))
 
+# tie paragraphs (and one wording correction) for the entries that live in the CHECKS table above
+for _k, _v in json.load(open(VERIF / "harness" / "manifest_ties_taus.json")).items():
+    CHECKS[_k]["tie"] = _v["tie"]
+    if "text_replace" in _v:
+        CHECKS[_k]["text"] = CHECKS[_k]["text"].replace(*_v["text_replace"])
+
 NOT_APPLICABLE = {}
 
 ALL = [f"C{i:02d}" for i in range(1, 21)]
